@@ -65,6 +65,7 @@ var defaultAllowedFns = []string{
 	"(net/http.Header).Get", "(net/http.Header).Set", "(net/http.Header).Add", "(net/http.Header).Del", "(net/http.Header).Values",
 	"(net/textproto.MIMEHeader).Get", "(net/textproto.MIMEHeader).Set", "(net/textproto.MIMEHeader).Add", "(net/textproto.MIMEHeader).Del", "(net/textproto.MIMEHeader).Values",
 	"(*io.LimitedReader).Read",
+	"(*net/url.URL).Port", "(*net/url.URL).Hostname", "net/url.splitHostPort", "net/url.validOptionalPort",
 }
 
 // model redirects: real callee -> harness function (if the harness defines it)
@@ -504,14 +505,16 @@ func (w *worker) record(r pathResult) {
 			}()
 			v = m.violation
 		}
-		if v != nil && len(res.Violations) < 12 {
-			dup := false
+		if v != nil && len(res.Violations) < 24 {
+			same := 0
 			for _, o := range res.Violations {
 				if o.Kind == v.Kind && o.ID == v.ID && o.Detail == v.Detail {
-					dup = true
+					same++
 				}
 			}
-			if !dup {
+			// keep up to three witnesses per assertion: a later one may replay
+			// natively where the first does not (e.g. a TLS path)
+			if same < 3 {
 				out := ViolationOut{Kind: v.Kind, ID: v.ID, Detail: v.Detail, Params: e.params, Harness: res.Harness, Trace: m.trace}
 				for _, n := range m.nondets {
 					val := uint64(0)
@@ -521,7 +524,7 @@ func (w *worker) record(r pathResult) {
 					out.Nondets = append(out.Nondets, WitnessVal{Name: n.Name, Kind: n.Kind, Value: val, N: n.Extra})
 				}
 				res.Violations = append(res.Violations, out)
-				if e.stopAfterViol > 0 && len(res.Violations) >= e.stopAfterViol {
+				if e.stopAfterViol > 0 && len(res.Violations) >= 3*e.stopAfterViol {
 					e.stopped = true
 					res.StoppedEarly = true
 				}
